@@ -47,7 +47,13 @@ def arg_descs(contract, fork_tag, model, hints=None):
     for name in contract["params"]:
         tag = fork.get(name)
         mv = model.get(name)
-        if contract["params"][name] == "selfc":
+        if contract["params"][name] in ("varpre", "varpre_small", "varchars"):
+            items = []
+            for i, t in enumerate(tag.split("|") if tag else []):
+                sub = arg_descs({"params": {f"{name}{i}": "pre"}}, f"{name}{i}={t}", model, hints)
+                items.append(sub[f"{name}{i}"])
+            out[name] = {"kind": "tuple", "items": items}
+        elif contract["params"][name] == "selfc":
             out[name] = {"kind": "selfc", "compiled": "+compiled" in (tag or "")}
         elif contract["params"][name] == "text":
             out[name] = {"kind": "text"}
